@@ -156,18 +156,92 @@ LsbOK(x) == (x.headLsbBit /\ x.srcLsbClean) => x.lsbMismatch = 0
 
 CffOK(x)  == (x.has.cff /\ x.has.maxp) => x.cffCharstrings = x.numGlyphs
 CmapOK(x) == (x.has.cmap /\ x.has.maxp) => x.cmapParses /\ x.cmapMaxGid < x.numGlyphs
-PostOK(x) == x.has.post => (x.postVersion = <<3, 0>> => x.postLen = 32)
+PostOK(x) ==
+  x.has.post => /\ (x.postVersion = <<3, 0>> => x.postLen = 32)
+                \* version 2.0 carries its own glyph count: a copy of a table that agreed with maxp still does
+                /\ ((x.postVersion = <<2, 0>> /\ x.has.maxp /\ x.counts.srcPostOk) => x.counts.postNumGlyphs = x.numGlyphs)
 ReloadOK(x) ==
   x.reload.tried => /\ x.reload.ok
                     /\ x.reload.advances = x.numGlyphs
                     /\ x.reload.outlines = x.numGlyphs
 
-CrossTableOK(x) == HmtxOK(x) /\ LocaOK(x) /\ GlyphsOK(x) /\ LsbOK(x) /\ CffOK(x) /\ CmapOK(x) /\ PostOK(x) /\ ReloadOK(x)
+\* ---- derived maxima and minima ------------------------------------------------------
+\* hhea.advanceWidthMax, minLeftSideBearing, minRightSideBearing, xMaxExtent, vhea.advanceHeightMax, the
+\* head bounding box and the maxima of maxp 1.0 are DEFINED by OpenType as the maximum / minimum of a
+\* quantity over the other tables (hmtx advances; side bearings and extents of glyphs with contours; glyph
+\* bounding boxes; points / contours / components of the glyph records).  The independent reader reports
+\* for each of them d = [name, rel, field, measured, has, srcHas, srcField, srcMeasured]:
+\*   field    the value stored in the written table,  measured  what the definition gives on the written tables
+\*   src...   the same two numbers on the source of the operation
+\* What "mutually consistent" demands depends on what the operation does with the field:
+\*   * a field the operation RECOMPUTES must equal its definition on the new tables (the writer has no
+\*     other source for it): instance recomputes hhea.advanceWidthMax from the new hmtx and, for glyf
+\*     fonts, the head bounding box from the new glyph records;
+\*   * Dev_CopiedMaximumIsBound: a field the operation COPIES while it removes glyphs (subset copies head,
+\*     hhea, maxp apart from the counts) keeps bounding the new tables - max fields >= , min fields <= the
+\*     measured value - provided the source font itself kept the bound (fonts in the wild do not always).
+\*     Equality is not demanded: consumers use these fields as limits, and the property does not say that a
+\*     subset has to tighten them;
+\*   * fields that are copied while the data they range over CHANGES (instance: min side bearings,
+\*     xMaxExtent, maxp) are measured and not judged.
+HeadBBoxFields == {"head.xMin", "head.yMin", "head.xMax", "head.yMax"}
+Recomputes(x, name) ==
+  x.op = "instance" /\ (name = "hhea.advanceWidthMax" \/ (name \in HeadBBoxFields /\ x.has.glyf))
+CopiesWhileRemovingGlyphs(x) == x.op = "subset"
+BoundOK(rel, f, m) == IF rel = "max" THEN f >= m ELSE f <= m
+DerivedFieldOK(x, d) ==
+  IF ~d.has THEN TRUE
+  ELSE IF Recomputes(x, d.name) THEN d.field = d.measured
+  ELSE IF CopiesWhileRemovingGlyphs(x) /\ d.srcHas /\ BoundOK(d.rel, d.srcField, d.srcMeasured)
+       THEN BoundOK(d.rel, d.field, d.measured)
+  ELSE TRUE
+DerivedBad(x) == {k \in 1 .. Len(x.derived) : ~DerivedFieldOK(x, x.derived[k])}
+DerivedOK(x) == DerivedBad(x) = {}
+
+\* vertical metrics: the twin of HmtxOK for vhea.numOfLongVerMetrics / vmtx, for tables copied from a
+\* source that kept the relation
+VmtxOK(x) ==
+  (x.counts.hasVhea /\ x.counts.hasVmtx /\ x.has.maxp /\ x.counts.srcVmtxOk) =>
+     /\ x.counts.nVM <= x.numGlyphs
+     /\ x.counts.vmtxLen >= 4 * x.counts.nVM + 2 * (x.numGlyphs - x.counts.nVM)
+
+\* ---- the structure of a written CFF table ---------------------------------------------
+\* x.cffw: what an independent reader found following the table from its header: every INDEX it met
+\* [name, count, offSize, first, last, mono, inside, dataLen], the glyph count, whether the charset covers
+\* exactly the glyphs (a predefined charset only as many glyphs as it names), how many glyphs FDSelect
+\* covers and the largest Font DICT index it uses, whether every Private DICT lies inside the table.
+\* Dev_OffSize: any offSize 1 .. 4 that holds the offsets is accepted; an offSize that is too small shows
+\* as offsets that do not start at 1, decrease or point outside the table.
+CffIndexOK(i) ==
+  i.count = 0 \/ (/\ i.offSize \in 1 .. 4
+                  /\ i.first = 1
+                  /\ i.mono
+                  /\ i.inside)
+CffStructOK(x) ==
+  x.has.cff =>
+    LET w == x.cffw IN
+    /\ w.walked
+    /\ \A k \in 1 .. Len(w.indexes) : CffIndexOK(w.indexes[k])
+    /\ (x.has.maxp => w.numGlyphs = x.numGlyphs)
+    /\ w.charsetOk
+    /\ (w.fdCount >= 0 => /\ w.fdSelectGlyphs = w.numGlyphs      \* CID-keyed: every glyph has a Font DICT
+                          /\ w.fdMax < w.fdCount)
+    /\ w.privateOk
+
+\* for reporting: which derived fields / which INDEXes fail
+DerivedBadNames(x) == {x.derived[k].name : k \in DerivedBad(x)}
+CffBadIndexes(x) == IF x.has.cff THEN {x.cffw.indexes[k].name : k \in {j \in 1 .. Len(x.cffw.indexes) : ~CffIndexOK(x.cffw.indexes[j])}}
+                    ELSE {}
+
+CrossTableOK(x) == /\ HmtxOK(x) /\ LocaOK(x) /\ GlyphsOK(x) /\ LsbOK(x) /\ CffOK(x) /\ CmapOK(x) /\ PostOK(x) /\ ReloadOK(x)
+                   /\ DerivedOK(x) /\ VmtxOK(x) /\ CffStructOK(x)
 CrossViolated(x) ==
   (IF HmtxOK(x) THEN {} ELSE {"HmtxOK"}) \cup (IF LocaOK(x) THEN {} ELSE {"LocaOK"})
   \cup (IF CffOK(x) THEN {} ELSE {"CffOK"}) \cup (IF CmapOK(x) THEN {} ELSE {"CmapOK"})
   \cup (IF PostOK(x) THEN {} ELSE {"PostOK"}) \cup (IF ReloadOK(x) THEN {} ELSE {"ReloadOK"})
   \cup (IF GlyphsOK(x) THEN {} ELSE {"GlyphsOK"}) \cup (IF LsbOK(x) THEN {} ELSE {"LsbOK"})
+  \cup (IF DerivedOK(x) THEN {} ELSE {"DerivedOK"}) \cup (IF VmtxOK(x) THEN {} ELSE {"VmtxOK"})
+  \cup (IF CffStructOK(x) THEN {} ELSE {"CffStructOK"})
 
 ---------------------------------------------------------------------------
 \* MODEL of FontBuilder: tables keyed by tag (a later add of the same tag replaces the earlier
